@@ -103,4 +103,14 @@ PROPS = {
                 'P against the Lean specification of the ingress-controller lines and of the blocked warnings',
         'assumptions': ['service port numbers and names unique within a Service'],
     },
+    'C12': {
+        'lean': ['Netpol.Properties.C12'],
+        'families': [('mut', 1500, 60000)],
+        'shard_min': 100,
+        'rule': 'valid generated worlds (all kinds incl. bare pods with ownerReferences, Services, Ingresses, Routes, ANPs) with 1-2 structural mutations '
+                '(drop / null / retype to int, string, bool, list, map / IPv6 or garbage strings, at any field path of any document) or byte-level damaged extra files; '
+                'list (plain, exposure with all formats, stop-on-error), diff (both orders, formatted) and the eval command run in-process under recover; '
+                'non-trivial/distinct = distinct mutation lists that were executed without panic',
+        'assumptions': ['panics inside third-party decoders, stack/heap exhaustion and timeouts are only exercised, not modelled'],
+    },
 }
